@@ -25,6 +25,24 @@ def sV(s):
     return V.s(z3.StringVal(s))
 
 
+def normpath_join_axiom(b, c, r):
+    """A-NORMPATH instantiated at normpath(join(b, c)) == r"""
+    sl = z3.StringVal("/")
+    return z3.Implies(z3.And(norm_abs(b), b != sl, z3.Not(z3.Contains(c, sl))),
+                      z3.If(z3.Or(c == z3.StringVal(""), c == z3.StringVal(".")), r == b,
+                            z3.Implies(c != z3.StringVal(".."), r == z3.Concat(b, sl, c))))
+
+
+def norm_abs(p):
+    """p is a normalised absolute POSIX path"""
+    sl = z3.StringVal("/")
+    return z3.And(z3.PrefixOf(sl, p),
+                  z3.Or(p == sl, z3.Not(z3.SuffixOf(sl, p))),
+                  z3.Not(z3.Contains(p, z3.StringVal("//"))),
+                  z3.Not(z3.Contains(z3.Concat(p, sl), z3.StringVal("/../"))),
+                  z3.Not(z3.Contains(z3.Concat(p, sl), z3.StringVal("/./"))))
+
+
 def is_listlike(v):
     return z3.And(is_ref(v), z3.Or([sub(typ(V.rv(v)), cid(n)) for n in LISTLIKE]))
 
@@ -112,7 +130,7 @@ class Engine:
                 params.append((a.arg, ANN_KIND[ann]))
             res = ANN_KIND[ast.unparse(fn.returns)] if fn.returns is not None else "V"
             sorts = ([HEAP_SORTS[n] for n in SPEC_HEAP] if sf.heap else []) + [KIND_SORT[k] for _, k in params] + [KIND_SORT[res]]
-            if sf.opaque:
+            if sf.opaque or getattr(sf, "hide", False):
                 f = z3.Function("spec_" + name, *sorts)
             else:
                 f = z3.RecFunction("spec_" + name, *sorts)
@@ -120,7 +138,7 @@ class Engine:
             defs.append(name)
         for name in defs:
             sp = self.specs[name]
-            if sp["opaque"]:
+            if sp["opaque"] or getattr(sp["sf"], "hide", False):
                 continue
             hp = Heap({n: z3.Const("h_%s" % n, HEAP_SORTS[n]) for n in HEAP_NAMES}, z3.Int("h_alloc"))
             env = {}
@@ -134,6 +152,51 @@ class Engine:
             body = self.spec_body(sp["fn"].body, ec, sp["res"])
             allargs = (hp.spec_args() if sp["heap"] else []) + args
             z3.RecAddDefinition(sp["f"], allargs, body)
+
+    def verify_lemmas(self):
+        """each @lemma is a standalone obligation over fresh typed constants (hidden specs revealed)"""
+        for name, lm in self.reg.lemmas.items():
+            tree = ast.parse(textwrap.dedent(lm.source))
+            fn = [n for n in tree.body if isinstance(n, ast.FunctionDef)][0]
+            env = {}
+            for a in fn.args.args:
+                k = ANN_KIND[ast.unparse(a.annotation)] if a.annotation is not None else "V"
+                env[a.arg] = T(k, z3.Const("lm_%s_%s" % (name, a.arg), KIND_SORT[k]))
+            st = St(env, self.h0.copy(), [])
+            fx = LemmaFX(name)
+            for text in lm.requires:
+                ec = EC(st, spec=True)
+                ec.reveal = True
+                st.assume(self.tb(self.ev(ast.parse(text.strip(), mode="eval").body, ec), ec))
+            for text in lm.ensures:
+                ec = EC(st, spec=True)
+                ec.reveal = True
+                goal = self.tb(self.ev(ast.parse(text.strip(), mode="eval").body, ec), ec)
+                o = self.emit(fx, "lemma", fn.lineno, st, goal, note="lemma %s: %s" % (name, text))
+                o.pure = True
+            self.functions.append(dict(file=self.reg.sidecars[0] if self.reg.sidecars else "", func="lemma " + name, sha256="",
+                                       loops=[], obligations=fx.nobl, paths=1, status="ok"))
+
+    def use_lemma(self, name, arg_texts, st, fx, line):
+        """instantiate a proved lemma at the given argument expressions: check its requires, assume its ensures"""
+        lm = self.reg.lemmas[name]
+        tree = ast.parse(textwrap.dedent(lm.source))
+        fn = [n for n in tree.body if isinstance(n, ast.FunctionDef)][0]
+        env = {}
+        for a, text in zip(fn.args.args, arg_texts):
+            k = ANN_KIND[ast.unparse(a.annotation)] if a.annotation is not None else "V"
+            ec = EC(st, spec=True, old=fx.entry)
+            ec.fx = fx
+            v = self.ev(ast.parse(text.strip(), mode="eval").body, ec)
+            env[a.arg] = T(k, self.coerce(v, k, ec))
+        lst = St(env, st.heap, st.pc)
+        for text in lm.requires:
+            ec = EC(lst, spec=True)
+            f = self.tb(self.ev(ast.parse(text.strip(), mode="eval").body, ec), ec)
+            self.emit(fx, "lemma-pre", line, st, f, note="lemma %s requires %s" % (name, text))
+        for text in lm.ensures:
+            ec = EC(lst, spec=True)
+            st.assume(self.tb(self.ev(ast.parse(text.strip(), mode="eval").body, ec), ec))
 
     def spec_body(self, stmts, ec, res):
         """if/return chains -> nested ite"""
@@ -452,6 +515,18 @@ class Engine:
             return T("s", self.str_repeat(a.t, as_int(b), ec))
         if a.k == "s" and isinstance(op, ast.Mod):
             raise OutOfSubset("% string formatting")
+        if a.k == "V" and b.k == "V" and self.must(ec.st, z3.And(is_obj(a.t), is_obj(b.t))):
+            self.assumptions.add("A-OBJOP: an arithmetic operator on two non-builtin objects returns an arbitrary fresh value and may raise")
+            flag = fresh("op_raises", BoolS)
+            c = fresh("exc_cls", IntS)
+            ec.assume(z3.Implies(flag, sub(c, cid("Exception"))))
+            ec.may_raise_exc(flag, Exc(c, None, line, "exception from an overloaded operator"))
+            self.assumptions.add("A-OBJOP: ... the result is an object of the left operand's class")
+            r_ = fresh("objop", IntS)
+            ec.st.assume(r_ == ec.st.heap.alloc)
+            ec.st.heap.alloc = r_ + 1
+            ec.st.assume(typ(r_) == typ(V.rv(a.t)))
+            return tV(V.ref(r_))
         if isinstance(op, ast.Add):
             va, vb = toV(a), toV(b)
             # str + str, list + list, number + number
@@ -793,12 +868,17 @@ class Engine:
         for c in g.ifs:
             guards.append(self.tb(self.ev(c, ec2), ec2))
         body = self.tb(self.ev(gen.elt, ec2), ec2)
-        kw = {}
-        if pats:
-            kw["patterns"] = pats
+        from .tr import forall as _forall, _has_ite, _mentions
         if universal:
-            return z3.ForAll(qvars, z3.Implies(z3.And(guards) if guards else z3.BoolVal(True), body), **kw)
-        return z3.Exists(qvars, z3.And(guards + [body]), **kw)
+            return _forall(qvars, z3.Implies(z3.And(guards) if guards else z3.BoolVal(True), body), pats)
+        ps = [z3.simplify(p) for p in pats]
+        ps = [p for p in ps if z3.is_app(p) and not _has_ite(p) and all(_mentions(p, v) for v in qvars)]
+        try:
+            if ps and len(ps) == len(pats):
+                return z3.Exists(qvars, z3.And(guards + [body]), patterns=ps)
+        except z3.Z3Exception:
+            pass
+        return z3.Exists(qvars, z3.And(guards + [body]))
 
     # ==================================================================================================
     # calls
@@ -849,6 +929,12 @@ class Engine:
         if len(args) != len(sp["params"]):
             raise CheckerError("spec %s: wrong arity" % name)
         zs = [self.coerce(a, k, ec) for a, (_, k) in zip(args, sp["params"])]
+        if getattr(sp["sf"], "hide", False) and getattr(ec, "reveal", False):
+            # inside a lemma a hidden spec function is revealed: its body is inlined
+            env = {pn: T(k, z) for (pn, k), z in zip(sp["params"], zs)}
+            ec2 = EC(St(env, ec.st.heap, []), spec=True)
+            ec2.reveal = True
+            return T(sp["res"], self.spec_body(sp["fn"].body, ec2, sp["res"]))
         hp = ec.st.heap.spec_args() if sp["heap"] else []
         return T(sp["res"], sp["f"](*(hp + zs)))
 
@@ -999,6 +1085,24 @@ class Engine:
         k = z3.Const("k!", V)
         return T("b", z3.ForAll([r, k], z3.Implies(z3.And(r >= 0, r < FRONT, typ(r) == cid("dict"), h.dhas(r, k)), is_s(k)),
                                 patterns=[h.dhas(r, k)]))
+
+    def sp_norm_abs(self, e, ec):
+        return T("b", norm_abs(self.coerce(self.ev(e.args[0], ec), "s", ec)))
+
+    def sp_normpath_axiom(self, e, ec):
+        b, c, r = [self.coerce(self.ev(a, ec), "s", ec) for a in e.args]
+        return T("b", normpath_join_axiom(b, c, r))
+
+    def sp_re_search_lit(self, e, ec):
+        from . import rx
+        a0 = e.args[0]
+        pat = a0.value if isinstance(a0, ast.Constant) else self.reg.consts[a0.id]
+        R = rx.compile_search(pat)
+        return T("b", z3.InRe(self.coerce(self.ev(e.args[1], ec), "s", ec), R))
+
+    def sp_abspath_of(self, e, ec):
+        a = self.coerce(self.ev(e.args[0], ec), "s", ec)
+        return T("s", z3.Function("os_abspath", StrS, StrS)(a))
 
     def sp_startswith(self, e, ec):
         a = self.coerce(self.ev(e.args[0], ec), "s", ec)
@@ -1207,8 +1311,87 @@ class Engine:
         self.assumptions.add("A-JSON: json.dumps is an uninterpreted total function of the (deep) value")
         return T("s", json_dumps(toV(x)))
 
+    # -- os.path (assumed axioms; validated by differential sampling in the native harness, still assumed)
+    def lib_os_path_abspath(self, e, ec):
+        a = self.strarg(self.ev(e.args[0], ec), ec, e.lineno, "abspath arg")
+        f = z3.Function("os_abspath", StrS, StrS)
+        r = f(a)
+        self.assumptions.add("A-ABSPATH: os.path.abspath(p) is a normalised absolute path: starts with '/', has no '.', '..' or "
+                             "empty component, and does not end with '/' unless it is '/'")
+        ec.assume(norm_abs(r))
+        return T("s", r)
+
+    def lib_os_path_join(self, e, ec):
+        if len(e.args) != 2:
+            raise OutOfSubset("os.path.join with %d args" % len(e.args))
+        a = self.strarg(self.ev(e.args[0], ec), ec, e.lineno, "join arg")
+        b = self.strarg(self.ev(e.args[1], ec), ec, e.lineno, "join arg")
+        self.assumptions.add("A-JOIN: posixpath.join(a, b) = b if b starts with '/', a + b if a is empty or ends with '/', else a + '/' + b")
+        sl = z3.StringVal("/")
+        return T("s", z3.If(z3.PrefixOf(sl, b), b, z3.If(z3.Or(z3.Length(a) == 0, z3.SuffixOf(sl, a)), z3.Concat(a, b), z3.Concat(a, sl, b))))
+
+    def lib_os_path_normpath(self, e, ec):
+        a = self.strarg(self.ev(e.args[0], ec), ec, e.lineno, "normpath arg")
+        f = z3.Function("os_normpath", StrS, StrS)
+        r = f(a)
+        self.assumptions.add("A-NORMPATH: for a normalised absolute b != '/' and a single component c (no '/'): normpath(b + '/' + c) is "
+                             "b + '/' + c when c is not '', '.' or '..', and b when c is '' or '.'; nothing is assumed for other arguments")
+        # the axiom is instantiated by hand at the argument (no quantifier over strings is left to the solver)
+        a0 = e.args[0]
+        sl = z3.StringVal("/")
+        if isinstance(a0, ast.Call) and self.dotted(a0.func) == "os.path.join" and len(a0.args) == 2:
+            # normpath(join(b, c)): instantiate at exactly these b and c
+            b = self.strarg(self.ev(a0.args[0], ec), ec, e.lineno, "join arg")
+            c = self.strarg(self.ev(a0.args[1], ec), ec, e.lineno, "join arg")
+            ec.assume(normpath_join_axiom(b, c, r))
+            return T("s", r)
+        # general argument: split a at its last '/' into b + '/' + c
+        b = fresh("np_dir", StrS)
+        c = fresh("np_base", StrS)
+        sl = z3.StringVal("/")
+        has_sl = z3.Contains(a, sl)
+        ec.assume(z3.Implies(has_sl, z3.And(a == z3.Concat(b, sl, c), z3.Not(z3.Contains(c, sl)))))
+        ec.assume(z3.Implies(z3.And(has_sl, norm_abs(b), b != sl),
+                             z3.If(z3.Or(c == z3.StringVal(""), c == z3.StringVal(".")), r == b,
+                                   z3.Implies(c != z3.StringVal(".."), r == a))))
+        return T("s", r)
+
+    def lib_os_path_commonprefix(self, e, ec):
+        a0 = e.args[0]
+        if not (isinstance(a0, ast.List) and len(a0.elts) == 2):
+            raise OutOfSubset("os.path.commonprefix of anything but a two-element list literal")
+        a = self.strarg(self.ev(a0.elts[0], ec), ec, e.lineno, "commonprefix arg")
+        b = self.strarg(self.ev(a0.elts[1], ec), ec, e.lineno, "commonprefix arg")
+        cp = fresh("commonprefix", StrS)
+        self.assumptions.add("A-COMMONPREFIX: commonprefix([a, b]) is a prefix of both, and equals b (resp. a) when b (resp. a) is a "
+                             "character-wise prefix of the other")
+        ec.assume(z3.And(z3.PrefixOf(cp, a), z3.PrefixOf(cp, b), z3.Implies(z3.PrefixOf(b, a), cp == b),
+                         z3.Implies(z3.PrefixOf(a, b), cp == a)))
+        return T("s", cp)
+
     def lib_re_search(self, e, ec):
-        raise OutOfSubset("re.search (handled per contract package)")
+        from . import rx
+        pat = e.args[0]
+        if not (isinstance(pat, ast.Constant) and isinstance(pat.value, str)) or len(e.args) != 2 or e.keywords:
+            raise OutOfSubset("re.search with a non-literal pattern or flags (line %d)" % e.lineno)
+        try:
+            R = rx.compile_search(pat.value)
+        except rx.RxUnsupported as ex:
+            raise OutOfSubset("regex %r: %s" % (pat.value, ex))
+        s_ = self.strarg(self.ev(e.args[1], ec), ec, e.lineno, "expected string or bytes-like object")
+        hit = z3.InRe(s_, R)
+        m = fresh("match", IntS)
+        ec.st.assume(z3.Implies(hit, z3.And(typ(m) == cid("re.Match"), m >= 0)))
+        return tV(z3.If(hit, V.ref(m), V.none))
+
+    def me_join(self, recv, e, ec):
+        s_ = self.recv_str(recv, ec)
+        if s_ is None:
+            return None
+        x = toV(self.mat(self.ev(e.args[0], ec), ec))
+        f = z3.Function("str_join", *([HEAP_SORTS[n] for n in SPEC_HEAP] + [StrS, V, StrS]))
+        self.assumptions.add("A-JOIN-STR: sep.join(xs) is an uninterpreted function of sep and the (deep) list value; a non-str item raises TypeError")
+        return T("s", f(*(ec.st.heap.spec_args() + [s_, x])))
 
     # -- methods ---------------------------------------------------------------------------------
     def strarg(self, x, ec, line, what):
@@ -1444,13 +1627,21 @@ class Engine:
             ec.assume(f)
         return res
 
-    def havoc_heap(self, st, assigns, penv, line):
+    def ghost_refs(self, ec):
+        fx = getattr(ec, "fx", None)
+        if fx is None:
+            return []
+        return [V.rv(ec.st.env[g].t) for g in fx.contract.opts.get("ghost_lists", []) if g in ec.st.env]
+
+    def havoc_heap(self, st, assigns, penv, line, keep=()):
         """assigns entries: '*' (everything) or names of parameters whose object (shallow) may change"""
         h = st.heap
         a = dict(h.a)
         if "*" in assigns:
             for n in HEAP_NAMES:
                 a[n] = fresh(n, HEAP_SORTS[n])
+                for r in keep:   # ghost objects are unreachable for real code
+                    a[n] = z3.Store(a[n], r, h.a[n][r])
             na = fresh("alloc", IntS)
             st.assume(na >= h.alloc)
             h.alloc = na
@@ -1488,14 +1679,37 @@ class Engine:
             else:
                 ec.may_raise_exc(flag, Exc(cid(cls_name), None, e.lineno, "%s from opaque callee %s" % (cls_name, name)))
         if not desc.get("pure"):
-            self.havoc_heap(ec.st, ["*"], {}, e.lineno)
+            self.havoc_heap(ec.st, ["*"], {}, e.lineno, keep=self.ghost_refs(ec))
         kind = desc.get("result", "V")
         res = T(kind, fresh("opq_" + name, KIND_SORT[kind]))
-        if desc.get("result_allocated", True) and kind == "V":
+        if desc.get("fn"):
+            sp = self.specs[desc["fn"]]
+            vals = ([recv] if recv is not None and desc.get("fn_recv", True) else []) + list(args)
+            zs = [self.coerce(a, k, ec) for a, (_, k) in zip(vals, sp["params"])]
+            res = T(sp["res"], sp["f"](*((ec.st.heap.spec_args() if sp["heap"] else []) + zs)))
+        if desc.get("log"):
+            # ghost trace: append the logged argument to the ghost list (a heap list no real code can reach)
+            g = ec.st.env[desc["log"]]
+            r = V.rv(g.t)
+            h = ec.st.heap
+            n = h.llen(r)
+            self.list_set_all(ec, r, n + 1, z3.Store(h.a["lel"][r], n, toV(args[desc.get("log_arg", 0)])))
+        if desc.get("result_class"):
+            r = self.new_ref(ec, desc["result_class"])
+            res = tV(V.ref(r))
+        if desc.get("result_allocated", True) and kind == "V" and not desc.get("result_class") and not desc.get("fn"):
             ec.st.assume(z3.Implies(is_ref(res.t), z3.And(V.rv(res.t) >= 0, V.rv(res.t) < ec.st.heap.alloc)))
         self.assumptions.add("opaque callee %s: %s" % (name, desc.get("note", "result arbitrary; heap %s; may raise %s" % (
             "unchanged" if desc.get("pure") else "arbitrary afterwards", raises))))
         return res
+
+
+class LemmaFX:
+    def __init__(self, name):
+        self.label = "lemma." + name
+        self.nobl = 0
+        self.entry = None
+        self.fsrc = None
 
 
 class FX:
